@@ -516,7 +516,34 @@ std::string accessor_sig(NifFile& nif) {
 	return std::to_string(shapes.size()) + ":" + hex64(h);
 }
 
+// API-built models (names starting with '@'), saved and loaded again so that they are files like any other:
+//   @dup     : Scene Root -> { X, A, shape }, A -> { X }          two nodes of one name at different depths
+//   @unnamed : Scene Root -> { "", A, shape }, A -> { "" }        the same with two unnamed nodes
+int build_api_model(NifFile& nif, const std::string& name) {
+	if (name != "@dup" && name != "@unnamed")
+		return 99;
+	std::string x = name == "@dup" ? "X" : "";
+	nif.Create(NiVersion::getSSE());
+	MatTransform id;
+	nif.AddNode(x, id);
+	nif.AddNode("A", id);
+	std::vector<Vector3> v{Vector3(0, 0, 0), Vector3(1, 0, 0), Vector3(0, 1, 0)};
+	std::vector<Triangle> t{Triangle(0, 1, 2)};
+	std::vector<Vector2> uv{Vector2(0, 0), Vector2(1, 0), Vector2(0, 1)};
+	nif.CreateShapeFromData("S", &v, &t, &uv);
+	nif.AddNode(x, id, nif.FindBlockByName<NiNode>("A"));
+	NifSaveOptions so;
+	so.optimize = false;
+	so.sortBlocks = false;
+	std::stringstream ss;
+	nif.Save(ss, so);
+	ss.seekg(0);
+	return nif.Load(ss);
+}
+
 int load_sample(NifFile& nif, const std::string& name) {
+	if (!name.empty() && name[0] == '@')
+		return build_api_model(nif, name);
 	const char* sdir = std::getenv("VERIF_SAMPLES");
 	std::string samples = sdir ? sdir : "/repo/tests/input";
 	std::ifstream f(samples + "/" + name, std::ios::binary);
@@ -706,13 +733,73 @@ std::string added_template(NifFile& nif) {
 //   pre=cycle : as pre=ctrl, and the controller's nextControllerRef designates the controller itself
 //   pre=ctrl  : shape number [shapeK] gets a NiTransformController whose target pointer designates
 //               the shape (what animated shapes look like), saved and loaded again
+//   pre=dupnames : nodes X, A below the root and a second X below A are added (two nodes of one name)
+//   pre=unnamed  : the same with two unnamed nodes
+//   pre=collide  : an existing node is renamed to the name of an earlier node that hangs elsewhere
+//   pre=detached : the last bone of shape number [shapeK], when its node has no node below it, is
+//                  taken out of its parent's childRefs: a skin bone attached to nothing
 int load_variant(NifFile& nif, const std::string& name, const std::string& pre, long shapeK = 0) {
 	int rc = load_sample(nif, name);
-	if (rc != 0 || (pre != "share" && pre != "ctrl" && pre != "cycle"))
+	if (rc != 0 || (pre != "share" && pre != "ctrl" && pre != "cycle" && pre != "dupnames" && pre != "unnamed" && pre != "collide" && pre != "detached"))
 		return rc;
 	NifSaveOptions so0;
 	so0.optimize = false;
 	so0.sortBlocks = false;
+	if (pre == "dupnames" || pre == "unnamed" || pre == "collide" || pre == "detached") {
+		auto root = nif.GetRootNode();
+		if (!root)
+			return rc;
+		if (pre == "dupnames" || pre == "unnamed") {
+			std::string x = pre == "dupnames" ? "VerifDupX" : "";
+			MatTransform id;
+			nif.AddNode(x, id);
+			nif.AddNode("VerifDupA", id);
+			nif.AddNode(x, id, nif.FindBlockByName<NiNode>("VerifDupA"));
+		}
+		else if (pre == "collide") {
+			std::vector<NiNode*> nodes;
+			for (auto& b : nif.blocks) {
+				auto n = dynamic_cast<NiNode*>(b.get());
+				if (n && n != root)
+					nodes.push_back(n);
+			}
+			bool done = false;
+			for (size_t i = 0; i < nodes.size() && !done; ++i)
+				for (size_t j = i + 1; j < nodes.size() && !done; ++j) {
+					auto pa = nif.GetParentNode(nodes[i]);
+					auto pb = nif.GetParentNode(nodes[j]);
+					if (pa && pb && pa != pb && pb != root && pb != nodes[i] && nodes[i]->name.get() != nodes[j]->name.get()) {
+						nodes[j]->name.get() = nodes[i]->name.get();
+						done = true;
+					}
+				}
+		}
+		else {
+			auto shapes = nif.GetShapes();
+			if (shapes.empty())
+				return rc;
+			NiShape* sh = shapes[static_cast<size_t>(shapeK) % shapes.size()];
+			std::vector<int> ids;
+			nif.GetShapeBoneIDList(sh, ids);
+			if (!ids.empty() && ids.back() >= 0) {
+				auto bone = nif.hdr.GetBlock<NiNode>(static_cast<uint32_t>(ids.back()));
+				bool leaf = bone != nullptr;
+				if (bone)
+					for (auto& ch : bone->childRefs)
+						if (nif.hdr.GetBlock<NiNode>(ch))
+							leaf = false;
+				auto parent = bone ? nif.GetParentNode(bone) : nullptr;
+				if (leaf && parent && bone != root)
+					for (auto& ch : parent->childRefs)
+						if (ch.index == static_cast<uint32_t>(ids.back()))
+							ch.Clear();
+			}
+		}
+		std::stringstream ss;
+		nif.Save(ss, so0);
+		ss.seekg(0);
+		return nif.Load(ss);
+	}
 	if (pre == "ctrl" || pre == "cycle") {
 		auto shapes = nif.GetShapes();
 		if (shapes.empty())
@@ -927,8 +1014,9 @@ std::string shape_sig(NifFile& nif, NiShape* s) {
 	nif.GetShapeBoneList(s, bones);
 	bool skinned = s->IsSkinned();
 	hk = fnv(&skinned, 1, hk);
-	std::ostringstream bl;
+	std::ostringstream bl, bk;
 	for (size_t bi = 0; bi < bones.size(); ++bi) {
+		uint64_t hb = 1469598103934665603ULL;
 		bl << (bi ? "," : "");
 		for (unsigned char ch : bones[bi]) {
 			char buf[3];
@@ -937,6 +1025,7 @@ std::string shape_sig(NifFile& nif, NiShape* s) {
 		}
 		hk = fnv(bones[bi].data(), bones[bi].size(), hk);
 		hk = fnv("/", 1, hk);
+		hb = fnv(bones[bi].data(), bones[bi].size(), hb);
 		if (dynamic_cast<BSTriShape*>(s)) {
 			std::unordered_map<uint16_t, float> wts;
 			nif.GetShapeBoneWeights(s, static_cast<uint32_t>(bi), wts);
@@ -945,15 +1034,28 @@ std::string shape_sig(NifFile& nif, NiShape* s) {
 			for (auto& p : sw) {
 				hk = fnv(&p.first, 2, hk);
 				hk = fnv(&p.second, 4, hk);
+				hb = fnv(&p.first, 2, hb);
+				hb = fnv(&p.second, 4, hb);
 			}
+		}
+		else {
+			auto skinInst = nif.hdr.GetBlock<NiSkinInstance>(s->SkinInstanceRef());
+			auto skinData = skinInst ? nif.hdr.GetBlock(skinInst->dataRef) : nullptr;
+			if (skinData && bi < skinData->bones.size())
+				hb = hvec(skinData->bones[bi].vertexWeights, hb);
 		}
 		MatTransform xf;
 		bool ok = nif.GetShapeTransformSkinToBone(s, static_cast<uint32_t>(bi), xf);
 		hk = fnv(&ok, 1, hk);
+		hb = fnv(&ok, 1, hb);
 		if (ok) {
 			hk = fnv(&xf.translation, sizeof xf.translation, hk);
 			hk = fnv(&xf.scale, sizeof xf.scale, hk);
+			hb = fnv(&xf.translation, sizeof xf.translation, hb);
+			hb = fnv(&xf.scale, sizeof xf.scale, hb);
 		}
+		// per bone (position in the list, then content): what the k hash aggregates
+		bk << (bi ? "." : "") << hex64(hb);
 	}
 	if (!dynamic_cast<BSTriShape*>(s)) {
 		auto skinInst = nif.hdr.GetBlock<NiSkinInstance>(s->SkinInstanceRef());
@@ -963,7 +1065,7 @@ std::string shape_sig(NifFile& nif, NiShape* s) {
 				hk = hvec(bone.vertexWeights, hk);
 	}
 	return "g=" + hex64(hg) + ",s=" + hex64(hs) + ",t=" + hex64(ht) + ",k=" + hex64(hk) + ",nv=" + std::to_string(nv)
-		   + ",nt=" + std::to_string(nt) + ",bones=" + bl.str();
+		   + ",nt=" + std::to_string(nt) + ",bk=" + bk.str() + ",bones=" + bl.str();
 }
 
 std::string hexs(const std::string& s) {
